@@ -79,11 +79,15 @@ var deformations = []deformation{
 			})
 	}},
 	{"over-indent", func(rt *rapid.T, src, label string) string {
-		return pickLines(rt, src, label, func(l string) bool { return strings.HasPrefix(l, "\t") && !strings.HasPrefix(strings.TrimSpace(l), "//") },
+		return pickLines(rt, src, label, func(l string) bool {
+			return strings.HasPrefix(l, "\t") && !strings.HasPrefix(strings.TrimSpace(l), "//")
+		},
 			func(l string) string { return "\t\t" + l })
 	}},
 	{"tight-operators", func(rt *rapid.T, src, label string) string {
-		return pickLines(rt, src, label, func(l string) bool { return strings.Contains(l, " := ") || strings.Contains(l, " = ") || strings.Contains(l, ", ") },
+		return pickLines(rt, src, label, func(l string) bool {
+			return strings.Contains(l, " := ") || strings.Contains(l, " = ") || strings.Contains(l, ", ")
+		},
 			func(l string) string {
 				l = strings.Replace(l, " := ", ":=", 1)
 				l = strings.Replace(l, " = ", "=", 1)
@@ -91,7 +95,10 @@ var deformations = []deformation{
 			})
 	}},
 	{"semicolons", func(rt *rapid.T, src, label string) string {
-		return pickLines(rt, src, label, func(l string) bool { b, _ := splitEOL(l); return strings.HasPrefix(l, "\t") && strings.HasSuffix(b, ")") },
+		return pickLines(rt, src, label, func(l string) bool {
+			b, _ := splitEOL(l)
+			return strings.HasPrefix(l, "\t") && strings.HasSuffix(b, ")")
+		},
 			func(l string) string { b, e := splitEOL(l); return b + ";" + e })
 	}},
 	{"blank-lines", func(rt *rapid.T, src, label string) string {
@@ -148,7 +155,10 @@ var deformations = []deformation{
 	{"import-to-group", func(rt *rapid.T, src, label string) string {
 		// import "x"  ->  import ( "x" )  on one line, spaced oddly
 		return pickLines(rt, src, label, func(l string) bool { return strings.HasPrefix(l, "import \"") },
-			func(l string) string { b, e := splitEOL(l); return "import (  " + strings.TrimPrefix(b, "import ") + "  )" + e })
+			func(l string) string {
+				b, e := splitEOL(l)
+				return "import (  " + strings.TrimPrefix(b, "import ") + "  )" + e
+			})
 	}},
 }
 
